@@ -4,6 +4,7 @@ from ..facts import Facts
 from .. import hireval as H
 from ..terms import show, walk
 from ..rules.common import *
+from ._std import check_must_call_on_success
 
 INCS = [1, 2, 3, 4, 5, 6, 7, 8, 10, 12, 15, 20, 23, 24, 25, 30, 59, 60, 61, 100, 125, 250, 500, 999, 1000, 1001,
         720, 1440, 43200, 86400, 86_400_000, 10**9]
@@ -512,4 +513,27 @@ def main(tier):
                         "three criteria the property names (unit group, largest>=smallest, increment within and dividing "
                         "the unit maximum)", "increments are sampled from a covering set (divisors, non-divisors, maxima, "
                         "maxima+-1, 1e9), not all 1e9 values"]
+    # R11: the options are resolved (validated) on every path that returns a value
+    rule = "R11.options-validated-before-success"
+    run.rule(rule, "every success path of an operation that takes rounding / difference / to-string options passes through "
+                   "the option resolver (ResolvedRoundingOptions::from_* / ToStringRoundingOptions::resolve): no fast path "
+                   "returns a value for option combinations that are RangeErrors")
+    CORE = "temporal_rs::builtins::core::"
+    table = [("duration::Duration::round_with_provider", ["from_duration_options"]),
+             ("duration::Duration::as_temporal_string", ["ToStringRoundingOptions::resolve"]),
+             ("date::PlainDate::diff_date", ["from_diff_settings"]),
+             ("datetime::PlainDateTime::diff", ["from_diff_settings"]),
+             ("datetime::PlainDateTime::round", ["from_datetime_options"]),
+             ("datetime::PlainDateTime::to_ixdtf_string", ["ToStringRoundingOptions::resolve"]),
+             ("instant::Instant::diff_instant", ["from_diff_settings"]),
+             ("instant::Instant::round", ["from_instant_options"]),
+             ("instant::Instant::to_ixdtf_string_with_provider", ["ToStringRoundingOptions::resolve"]),
+             ("time::PlainTime::diff_time", ["from_diff_settings"]),
+             ("time::PlainTime::to_ixdtf_string", ["ToStringRoundingOptions::resolve"]),
+             ("year_month::PlainYearMonth::diff", ["from_diff_settings"]),
+             ("zoneddatetime::ZonedDateTime::diff_internal_with_provider", ["from_diff_settings"]),
+             ("zoneddatetime::ZonedDateTime::to_ixdtf_string_with_provider", ["ToStringRoundingOptions::resolve"])]
+    for suffix, parts in table:
+        check_must_call_on_success(run, fx, fx["temporal_rs"].fn(CORE + suffix), parts, rule, suffix,
+                                   "the option combination is never validated on that path")
     return run.finish(EXPLANATION)
